@@ -83,7 +83,10 @@ def dagger_products(ctx, rule="C02.dagger-products"):
     cfg = cfg_of(f.node)
     flips = [n for n in walk_no_nested(f.node) if isinstance(n, ast.Assign) and isinstance(n.targets[0], ast.Attribute)
              and n.targets[0].attr == "dagger"]
-    ctx.require(flips, "Gate.decompose no longer assigns .dagger")
+    if not flips:
+        ctx.ob(rule, f.site, False, "Gate.decompose no longer inverts the products of a daggered gate (no `.dagger` assignment): "
+               "G.H decomposes into the sequence of G", role="flip-all", line=f.node.lineno)
+        return
     fl = flips[0]
     fid = cfg.find(fl)[0]
     conds = cfg.branch_conditions(fid)
